@@ -213,7 +213,8 @@ def _explore_compute_status(ix, kind, symbols, mutate=None):
     def rec(st, ev):
         g = st.ghost
         if ev[0] == "iter":
-            v = st.obj(ev[3]).fields["status"].name
+            # the loop walks the children themselves or (lazily) their statuses
+            v = ev[3].name if isinstance(ev[3], EnumVal) else st.obj(ev[3]).fields["status"].name
             c = cls_of[v]
             g["n"] = 1 if g.get("n", 0) == 0 else GE2
             problem_classes = ("failure", "error", "untested") if kind != "scenario" else ("failure", "error", "untested", "skipped")
